@@ -234,6 +234,64 @@ def run(ck, ctx):
         fnm = "RadioEFieldParams.__call__"
         if r2.value is None:
             raise AnalysisError("RadioEFieldParams.__call__ has no value")
+        # R20.6 the field model: two Gaussians in the off-axis angle, each with ITS OWN squared width
+        def field_model():
+            cols = {}
+            for n in walk([r2.value]):
+                if n.op == "Subscript" and n.args[1].op == "Tuple" and len(n.args[1].args) == 3 and \
+                        n.args[1].args[2].op == "Const" and type(n.args[1].args[2].attr) is int and \
+                        all(a.op == "Slice" for a in n.args[1].args[:2]):
+                    cols.setdefault(n.args[1].args[2].attr, []).append(n)
+            need = {1: "E0", 2: "pk", 3: "w", 4: "E1", 5: "w2"}
+            if not all(k_ in cols for k_ in need):
+                ck.ob("R20.6", "field model: the five fit columns (E0, peak, w, E1, w2) are read from the table", None,
+                      r2.value, fnm, f"columns found: {sorted(cols)}")
+                return
+            roles = {}
+            allnodes = list(walk([r2.value]))
+
+            def outermost(cur):
+                # the column as used in the formula: through the frequency cut and reshapes (selection / layout only)
+                for _ in range(6):
+                    nxt = None
+                    for p_ in allnodes:
+                        if p_.op == "Subscript" and p_.args[0] is cur and p_.args[1].op != "Const":
+                            nxt = p_
+                        elif p_.op == "MCall" and p_.attr[0] in ("reshape", "copy", "astype") and p_.args and \
+                                p_.args[0] is cur:
+                            nxt = p_
+                        elif is_ext_call(p_, "numpy.reshape", "numpy.asarray") and len(p_.args) >= 2 and \
+                                p_.args[1] is cur:
+                            nxt = p_
+                        if nxt is not None:
+                            break
+                    if nxt is None:
+                        break
+                    cur = nxt
+                return cur
+            for k_, nm in need.items():
+                outs = {g.vn(outermost(n_)): outermost(n_) for n_ in cols[k_]}
+                if len(outs) != 1:
+                    ck.ob("R20.6", f"field model: column {k_} is read in one way", None, cols[k_][0], fnm,
+                          f"{len(outs)} readings")
+                    return
+                roles[nm] = next(iter(outs.values()))
+            roles["v"] = vv
+            P_ = PolyFacet(I, opaque_ids={n_.id for n_ in roles.values()}, gather_transparent=True)
+            keys = {g.vn(n_) for n_ in roles.values()}
+            P_.opaque = (lambda n_, _k=keys, _o=P_.opaque: _o(n_) or g.vn(n_) in _k)
+            P_.canon = lambda n_: None
+            env = {k_: P_.of(n_) for k_, n_ in roles.items()}
+            ref = "E0*exp(-(v*v)/(2*w*w)) + abs(E1)*exp(-((pk + v)*(pk + v))/(2*w2*w2))/2"
+            try:
+                ok = P_.equal(P_.of(r2.value), P_.ref(ref, env))
+                detail = P_.show(P_.of(r2.value))[:240]
+            except Exception as ex:       # noqa: BLE001
+                ok, detail = None, f"{type(ex).__name__}: {ex}"
+            ck.ob("R20.6", "field model == E0 exp(-(view)^2 / (2 w^2)) + |E1| exp(-(peak + view)^2 / (2 w2^2)) / 2  "
+                  "(each Gaussian with its own width squared: finite for every fitted width, whatever its sign)", ok,
+                  r2.value, fnm, detail, construct=f"{fnm}: field model")
+        ck.guard(field_model, "R20.6")
         from ..interp_expr import is_basic_index
         pr = Pred(I)
         msk = {}
